@@ -501,7 +501,10 @@ public:
 		if (bitsToShift == 0) return *this;
 		if (bitsToShift < 0) return operator<<=(-bitsToShift);
 		if (bitsToShift >= static_cast<int>(nbits)) {
+			// arithmetic shift: all bits are copies of the sign bit
+			bool negative = sign();
 			setzero();
+			if (negative) flip(); // -1
 			return *this;
 		}
 		bool signext = sign();
